@@ -14,7 +14,7 @@ from .stmt import Iter
 from .calls import KwArgs
 from .values import (Sym, SV, SList, SSet, SOpt, FuncRef, ModuleRef, ClassRef, Opaque, Unsupported, TInt, TBool, TStr,
                      TNet, TNone, TObj, TList, TSet, TOpt, TTuple, TBV, Net, fresh, fresh_name, type_constraints,
-                     type_of, to_term, wrap, sort_of, is_concrete, list_from_concrete, BVW)
+                     type_of, to_term, wrap, sort_of, is_concrete, list_from_concrete, BVW, BIT, BitStr, BitChar)
 
 ISDIGIT = z3.Function("py_isdigit", z3.StringSort(), z3.BoolSort())
 
@@ -46,6 +46,8 @@ class BuiltinMixin:
 
     def bi_int(self, args, kwargs, st, node):
         v = args[0]
+        if isinstance(v, BitChar):
+            return SV(TInt, z3.If(BIT(v.w, v.pos), 1, 0))
         if isinstance(v, bool):
             return int(v)
         if isinstance(v, int):
@@ -76,6 +78,8 @@ class BuiltinMixin:
         if not args:
             return ""
         v = args[0]
+        if isinstance(v, SV) and v.ty is TBV:
+            return Opaque("str(address)")   # dotted-quad text: only used in messages by the verified targets
         if isinstance(v, str):
             return v
         if isinstance(v, (bool, int)) or v is None:
@@ -297,7 +301,16 @@ class BuiltinMixin:
         raise Unsupported("getattr with computed name")
 
     def bi_format(self, args, kwargs, st, node):
-        raise Unsupported("format()")
+        v, spec_ = args[0], args[1] if len(args) > 1 else ""
+        if isinstance(v, SV) and v.ty is TBV and isinstance(spec_, str) and spec_.startswith("0") and spec_.endswith("b") \
+                and spec_[1:-1].isdigit():
+            width = int(spec_[1:-1])
+            # the text has exactly `width` characters iff v < 2**width
+            self.emit("safe.format", f"L{getattr(node, 'lineno', 0)}", st, z3.ULT(v.t, z3.BitVecVal(1 << width, BVW)))
+            return BitStr(v.t, width)
+        if isinstance(v, int) and isinstance(spec_, str):
+            return format(v, spec_)
+        raise Unsupported("format() in this form")
 
     # ------------------------------------------------------------------ methods of built-in types
     def call_method(self, recv, name, args, kwargs, st, node):
@@ -476,7 +489,14 @@ class BuiltinMixin:
             if name == "append":
                 return SList(L.ety, L.n + 1, z3.Store(L.a, L.n, to_term(args[0])))
             if name == "extend":
-                return self.list_concat(L, args[0])
+                R = self.list_concat(L, args[0])
+                B = self.as_slist(args[0], L.ety)
+                # membership distributes over concatenation (engine lemma, witness forms in pyvc.lemmas.concat_lemmas)
+                x = z3.Const(fresh_name("cc_x"), sort_of(L.ety))
+                from .spec import mem_term
+                st.pc = st.pc + (z3.ForAll([x], mem_term(R, x) == z3.Or(mem_term(L, x), mem_term(B, x))),)
+                self.engine_lemmas.add("list.concat/members")
+                return R
             if name == "reverse":
                 return SList(L.ety, L.n, z3.Lambda([j], L.a[L.n - 1 - j]))
             if name == "insert" and isinstance(args[0], int) and args[0] == 0:
@@ -487,7 +507,8 @@ class BuiltinMixin:
                 # remove the first occurrence; ValueError when absent
                 x = to_term(args[0])
                 q = z3.Int(fresh_name("rm_q"))
-                present = z3.Exists([q], z3.And(0 <= q, q < L.n, L.a[q] == x))
+                from .spec import mem_term as _mt
+                present = _mt(L, x)
                 self.pending.append((z3.Not(present), "ValueError", None))
                 idx = z3.Int(fresh_name("rm_i"))
                 st.pc = st.pc + (z3.Implies(present, z3.And(0 <= idx, idx < L.n, L.a[idx] == x,
@@ -497,8 +518,9 @@ class BuiltinMixin:
                     # consequences for strictly ascending lists; proved once as engine lemmas (pyvc.lemmas.REMOVE_*)
                     from .spec import mem_term, asc_term
                     pp = z3.Int(fresh_name("rm_p"))
-                    st.pc = st.pc + (z3.Implies(z3.And(present, asc_term(L)), z3.And(
-                        asc_term(R), z3.ForAll([pp], mem_term(R, pp) == z3.And(mem_term(L, pp), pp != x)))),)
+                    guard = z3.And(present, asc_term(L))
+                    st.pc = st.pc + (z3.Implies(guard, asc_term(R)),
+                                     z3.ForAll([pp], z3.Implies(guard, mem_term(R, pp) == z3.And(mem_term(L, pp), pp != x))))
                     self.engine_lemmas.add("list.remove/ascending")
                 return R
             raise Unsupported(f"list.{name} on symbolic list")
